@@ -1031,6 +1031,43 @@ def premise_unique(ctx, path, n, rule="V.are_unique", semantic=True):
                             okall = False
                 rep.ob(rule + ".no-panic", "%s %s L%s" % (short(o.fn), o.kind, o.line), okall, "assert can fail for some card-or-blank hand", pdb.where(o.fn))
             return
+        # looks inside the words (hashing, masking): look for a concrete counterexample among hands of real cards —
+        # every pair of distinct cards together in one hand (with distinct fillers) must count as unique, and every
+        # card repeated in two slots as not unique
+        words = ctx.words53()[1:]
+        cex = None
+        try:
+            for i_, a_ in enumerate(words):
+                for b_ in words[i_ + 1:]:
+                    fill = [w for w in words if w != a_ and w != b_][:n - 2]
+                    for pos in ((0, 1), (0, n - 1), (n - 2, n - 1), (1, n // 2)):
+                        hand_ = list(fill)
+                        hand_.insert(min(pos[0], len(hand_)), a_)
+                        hand_.insert(min(pos[1], len(hand_)), b_)
+                        if cval(ctx.fold(dag, dict(zip(names, hand_)))) != 1:
+                            cex = (hand_, "distinct cards reported as not unique")
+                            break
+                    if cex:
+                        break
+                if cex:
+                    break
+            if cex is None:
+                for a_ in words[::3]:
+                    fill = [w for w in words if w != a_][:n - 2]
+                    for pos in ((0, 1), (0, n - 1), (n - 2, n - 1)):
+                        hand_ = list(fill)
+                        hand_.insert(min(pos[0], len(hand_)), a_)
+                        hand_.insert(min(pos[1], len(hand_)), a_)
+                        if cval(ctx.fold(dag, dict(zip(names, hand_)))) != 0:
+                            cex = (hand_, "a repeated card reported as unique")
+                            break
+                    if cex:
+                        break
+        except (IndexError, Uncertified):
+            cex = None
+        if cex:
+            rep.ob(rule, short(path), False, "%s::are_unique on %s: %s (the test looks inside the words: %s)" % (short(path), [hex(w) for w in cex[0]], cex[1], why), pdb.where(key))
+            return
         rep.uncertified(rule, "%s::are_unique: %s" % (short(path), why), pdb.where(key))
         return
     # constants the slots (or their order statistics) are compared with
